@@ -322,17 +322,17 @@ FS_STUBS = ["std::path::Path::metadata -> Ok(zeroed Metadata)", "std::fs::Metada
             "<File as Read>::read -> copies from the in-memory file image, whole request", "<File as Write>::write/flush -> appends to an in-memory output buffer",
             "<OwnedFd as Drop>::drop -> no-op", "std::backtrace::Backtrace::capture -> Backtrace::disabled()",
             "std::alloc::alloc -> alloc_zeroed + fill 0xAA + record (ptr, size, align)", "core::str::from_utf8 -> env::from_utf8_stub"]
-C08_MEM = ["c08_load_mem_u32", "c08_load_mem_u32_trail5", "c08_load_mem_tup2", "c08_load_mem_arru32x1", "c08_load_mem_u64_trail20", "c08_overaligned_refused"]
+C08_MEM = ["c08_load_mem_u32", "c08_load_mem_u32_trail5", "c08_load_mem_tup2", "c08_load_mem_zeros", "c08_load_mem_arru32x1", "c08_load_mem_u64_trail20", "c08_overaligned_refused"]
 C08_REST = ["c08_load_full_u32", "c08_load_full_tup2", "c08_store_u32", "c08_store_tup2"]
 PLAN["C08"] = dict(
-    quick=lambda seed: [dict(cfg="nommap", harnesses=names("c08", C08_MEM[:3] + C08_REST[:1] + C08_REST[2:3] + ["c08_overaligned_refused"], bound="file = real serialization of a symbolic value (+ trailing bytes); fs stubs", what="load_mem/load_full/store vs the serialized bytes; region aligned, rounded, zero tail, borrows inside, move/box", covers="none")
+    quick=lambda seed: [dict(cfg="nommap", harnesses=names("c08", C08_MEM[:4] + C08_REST[:1] + C08_REST[2:3] + ["c08_overaligned_refused"], bound="file = real serialization of a symbolic value (+ trailing bytes); fs stubs", what="load_mem/load_full/store vs the serialized bytes; region aligned, rounded, zero tail, borrows inside, move/box", covers="none")
                              + [twin("c08::c08_twin_reach")], timeout=900),
                         dict(cfg="default", tag="1", harnesses=names("c08", ["c08_load_mem_u32"], bound="default features (mmap compiled in), success path only", what="load_mem vs the serialized bytes", covers="none"), timeout=900)],
-    thorough=lambda seed: [dict(cfg="nommap", harnesses=names("c08", C08_MEM + C08_REST + ["c08_load_mem_optu8"], bound="file = real serialization of a symbolic value; fs stubs", what="load_mem/load_full/store", covers="none") + [twin("c08::c08_twin_reach")], timeout=2400),
+    thorough=lambda seed: [dict(cfg="nommap", harnesses=names("c08", C08_MEM + C08_REST + [], bound="file = real serialization of a symbolic value; fs stubs", what="load_mem/load_full/store", covers="none") + [twin("c08::c08_twin_reach")], timeout=2400),
                            dict(cfg="default", tag="1", harnesses=names("c08", ["c08_load_mem_u32", "c08_load_mem_tup2"], bound="default features, success path", what="load_mem", covers="none"), timeout=2400)],
-    bounds={"files": "<= 64 bytes; reader types u32, u64, (u16,u16), [u32;1], Option<u8>; trailing bytes 0, 5, 20", "features": "no-mmap build for every harness; default build for the success path"},
+    bounds={"files": "<= 64 bytes; reader types u32, u64, (u16,u16), [u32;1], ZeroS (derived zero-copy struct: borrowed reference inside the region); trailing bytes 0, 5, 20", "features": "no-mmap build for every harness; default build for the success path"},
     outside=["load_mmap, mmap and the 8 flag sets (mmap/madvise/mprotect FFI inside mmap-rs: a stub would be the property)", "cross-thread reads (Send/Sync impls): Kani has no concurrency",
-             "page-size effects, real file systems, short reads of a real file (C14 covers read_exact)", "files larger than 64 bytes"],
+             "page-size effects, real file systems, short reads of a real file (C14 covers read_exact)", "files larger than 64 bytes: in particular every sequence type (their type names alone exceed the budget), so borrowed slices inside the region are covered only through zero-copy references (&ZeroS, &(u16,u16), &[u32;1])"],
     stubs=FS_STUBS, assumptions=["every stub of fsenv.rs"])
 C09_ALL = ["c09_release_u32", "c09_release_tup2", "c09_release_arr", "c09_fail_wrong_type", "c09_fail_wrong_type_zero", "c09_fail_truncated", "c09_fail_bad_magic", "c09_fail_bad_tag", "c09_fail_read_error",
            "c09_escape_deref", "c09_escape_asref", "c09_scoped_use", "c09_eps_scope"]
